@@ -205,13 +205,14 @@ PROPS = {
         "coq": ["Props/C10.v"],
         "level": "proof",
         "harness": ["gwrun", "purediff"],
-        "stages": [("pure", stage_pure, {"suites": ["expand_cid"], "n_quick": 3000, "n_thorough": 50000}),
+        "stages": [("core", stage_core, {"n_quick": 1500, "n_thorough": 20000}),
+                   ("pure", stage_pure, {"suites": ["expand_cid"], "n_quick": 3000, "n_thorough": 50000}),
                    ("subjects", stage_pure, {"suites": ["subjects"], "n_quick": 600, "n_thorough": 6000}),
                    ("gw", stage_gw, {"profiles": [("access", 500, 4000), ("scacc", 500, 4000), ("churn", 250, 2000), ("accrefs", 200, 2000), ("http", 250, 2000)]})],
         "rule": "multi-connection histories with distinct tokens; monitor: no frame to a client contains any connection id, every service request made by "
                 "connection c's worker carries c's id and a token of c in effect since the last quiescent point; differential of the {cid} expansion",
         "assumptions": ["services never put connection ids into payloads (the mock does not)"],
-        "technique": "Coq proof ({cid} expansion leaves ids without braces unchanged; token-reset filter) + Coq isolation monitor (extracted) on scheduled traces + differential of ExpandCID",
+        "technique": "Theorems on the integrated model Comp/Core.v run in lock-step with the real gateway (a task of connection c addresses c only; every access request is for one of c's Subscription objects and carries c's own token; a token changes only by the connection's own token events) + Coq proof ({cid} expansion leaves ids without braces unchanged; token-reset filter) + Coq isolation monitor (extracted) on scheduled traces + differential of ExpandCID",
         "level_text": "Construction lemmas proved; the isolation statement is a decidable Coq predicate evaluated on explored multi-connection histories",
         "level_note": "trusted: Coq kernel, extraction, the harness (mock messaging system, consistent mock service, scheduler hooks, frame abstraction in harness/internal/gw); task atomicity (DESIGN section 4); modelled not verified: encoding/json, gorilla/websocket",
     },
